@@ -5,5 +5,6 @@ CONSTANTS
   Routes = {"string", "lines"}
   CfgName = "plain"
   Emit = TRUE
+  EmitOneIn = 1
 INVARIANTS Inv_P_C10 Inv_LiveTreesClean Inv_Emit
 CHECK_DEADLOCK FALSE
